@@ -121,7 +121,10 @@ func (nfc *NestedFieldCache) prefixMatch(prefix string, fieldPaths search.FieldS
 	common = true
 	any = false
 	for path := range fieldPaths {
-		has := strings.HasPrefix(path, prefix)
+		// the prefix must end at a path-element boundary: the nested array "b"
+		// is not a prefix of the sibling array "bb"
+		has := strings.HasPrefix(path, prefix) &&
+			(len(path) == len(prefix) || strings.HasSuffix(prefix, ".") || path[len(prefix)] == '.')
 		if has {
 			any = true
 		} else {
